@@ -126,8 +126,8 @@ PROPS = {
     "C16": {
         "technique": "TLA+ typed value-pool state machine (MC_C16.tla, action properties Immutable/AppendOnly) model-checked with TLC; its "
                      "behaviours (exhaustive depth 2 + simulated depth 14) replayed on concrete pools; TLC trace validation of per-slot digests after every step",
-        "level_text": "MC_C16.tla lists every public operation with its operand and result types over a pool of 2 points, 2 durations, 1 zone and "
-                      "2 recurrences; TLC checks the design is append-only and emits every operation sequence to depth 2 plus long simulated ones. "
+        "level_text": "MC_C16.tla lists every public operation with its operand and result types over a pool of 2 points, 2 durations, 1 zone, "
+                      "2 recurrences and 1 truncated point; TLC checks the design is append-only and emits every operation sequence to depth 2 plus long simulated ones. "
                       "Each is run on concrete boundary values; after every step the harness re-snapshots every slot (str, every stored field "
                       "recursively, hash) and the trace spec requires every earlier digest unchanged - so mutation of an operand, of an earlier "
                       "result, or through shared state is caught at the step where it happens.",
